@@ -56,8 +56,8 @@ func (r *Rng) Bool() bool           { return r.U64()&1 == 1 }
 
 // Chance returns true with probability num/den.
 func (r *Rng) Chance(num, den int) bool { return r.Intn(den) < num }
-func (r *Rng) Pick(xs []int) int         { return xs[r.Intn(len(xs))] }
-func (r *Rng) PickS(xs []string) string  { return xs[r.Intn(len(xs))] }
+func (r *Rng) Pick(xs []int) int        { return xs[r.Intn(len(xs))] }
+func (r *Rng) PickS(xs []string) string { return xs[r.Intn(len(xs))] }
 
 func hashStr(s string) uint64 {
 	h := fnv.New64a()
@@ -76,18 +76,18 @@ type Violation struct {
 }
 
 type Result struct {
-	Prop         string           `json:"prop"`
-	Tier         string           `json:"tier"`
-	Seed         int64            `json:"seed"`
-	Shard        int              `json:"shard"`
-	Evaluations  int64            `json:"evaluations"`
-	Counters     map[string]int64 `json:"counters"`
+	Prop         string              `json:"prop"`
+	Tier         string              `json:"tier"`
+	Seed         int64               `json:"seed"`
+	Shard        int                 `json:"shard"`
+	Evaluations  int64               `json:"evaluations"`
+	Counters     map[string]int64    `json:"counters"`
 	Sets         map[string][]uint64 `json:"sets"` // named sets of hashed keys, unioned across shards
-	Samples      []interface{}    `json:"samples"`
-	Violations   []Violation      `json:"violations"`
-	Known        []Violation      `json:"known"` // discrepancies that match a known-finding signature exactly
-	Inconclusive []string         `json:"inconclusive"`
-	Done         bool             `json:"done"`
+	Samples      []interface{}       `json:"samples"`
+	Violations   []Violation         `json:"violations"`
+	Known        []Violation         `json:"known"` // discrepancies that match a known-finding signature exactly
+	Inconclusive []string            `json:"inconclusive"`
+	Done         bool                `json:"done"`
 }
 
 type Ctx struct {
@@ -101,12 +101,12 @@ type Ctx struct {
 	Verbose bool
 	Race    bool // this binary was built with -race
 
-	res      Result
-	sets     map[string]map[uint64]struct{}
-	caseLog  *os.File
-	curIdx   int64
-	maxViol  int
-	outPath  string
+	res             Result
+	sets            map[string]map[uint64]struct{}
+	caseLog         *os.File
+	curIdx          int64
+	maxViol         int
+	outPath         string
 	exhaustiveTotal int64
 }
 
